@@ -206,6 +206,7 @@ struct Found {
 }
 
 static MEM_STOP: AtomicBool = AtomicBool::new(false);
+static UNREPRODUCED: AtomicBool = AtomicBool::new(false);
 
 // ---- breadcrumbs: the case each worker is running, written out by a signal handler if the process is killed by the code under test
 const CRUMB_SLOTS: usize = 32;
@@ -768,7 +769,8 @@ fn cmd_check(id: &str, tier: &str, cases_override: Option<u32>, workers: usize, 
                 violation_line = Some(format!("VIOLATION property={} replay={}", rid, path.display()));
             }
         } else {
-            println!("note: a worker reported {} but the shrunk case did not reproduce it (non-determinism in the harness?)", f.reason);
+            println!("note: a worker reported {} but the case does not reproduce it when it is run on its own: some state outlives an execution (thread-local or static state in the tested code is shared by all simulated threads of a worker and is not reset between cases)", f.reason);
+            UNREPRODUCED.store(true, Ordering::Relaxed);
         }
     }
     for k in known.iter().filter(|k| k.status == "open" && k.property == id) {
@@ -843,6 +845,10 @@ fn cmd_check(id: &str, tier: &str, cases_override: Option<u32>, workers: usize, 
     if let Some(l) = violation_line {
         println!("{}", l);
         return 1;
+    }
+    if UNREPRODUCED.load(Ordering::Relaxed) {
+        println!("INCONCLUSIVE: a violation of {} was observed during the search but cannot be reproduced in isolation (see the note above)", rid);
+        return 2;
     }
     if MEM_STOP.load(Ordering::Relaxed) {
         println!("INCONCLUSIVE: the memory budget of this process was reached after {} cases; no violation was seen up to that point", agg.evaluations);
